@@ -419,14 +419,16 @@ def booking_nodes(cfg: CFG, body: set[int], key_var: str, fp_name: str, fs_name:
     return fp_nodes, fs_nodes, stray, allocs
 
 
-def check_fail(run: Run, prog: Program, roles: BatteryRoles) -> dict[str, dict[str, str]]:
+def check_fail(run: Run, prog: Program, roles: BatteryRoles, battery_only: bool = False) -> dict[str, dict[str, str]]:
     """Returns, per analysed function, the bindings other rules link to:
-    alloc (the map whose entry is booked as failed power), tasks (the iterated task map)."""
+    alloc (the map whose entry is booked as failed power), tasks (the iterated task map).
+    `battery_only`: decide BatteryManager._parse_result only (used by C01.B)."""
     out: dict[str, dict[str, str]] = {}
-    pv = _norm(prog, prog.func(f"{PV}._set_api_power"))
-    pv_cfg = CFG(pv.node, pv.file)
-    targets = [(roles.pr, CFG(roles.pr.node, roles.pr.file), roles.pr_pow, roles.pr_set),
-               (pv, pv_cfg, *pv_roles(prog, pv, pv_cfg))]
+    targets = [(roles.pr, CFG(roles.pr.node, roles.pr.file), roles.pr_pow, roles.pr_set)]
+    if not battery_only:
+        pv = _norm(prog, prog.func(f"{PV}._set_api_power"))
+        pv_cfg = CFG(pv.node, pv.file)
+        targets.append((pv, pv_cfg, *pv_roles(prog, pv, pv_cfg)))
     for fn, cfg, fp_name, fs_name in targets:
         run.analysed(fn.qual)
         r, h, key_var, tasks_map, body = result_loop(cfg, fn.qual)
@@ -816,10 +818,101 @@ CONTROLS = [
      "            failed = True\n            try:\n",
      "            if aws.cancelled():\n                failed_batteries.update(battery_ids)\n                continue\n"
      "            failed = True\n            try:\n", "C15.FAIL"),
+    ("PV allocation not taken off the excess ledger",
+     "microgrid._power_distributing._component_managers._pv_inverter_manager._pv_inverter_manager",
+     "            allocations[inv_id] = allocated_power\n            remaining_power -= allocated_power\n",
+     "            allocations[inv_id] = allocated_power\n", "C15.ID"),
     ("succeeded set not reduced by failed", "microgrid._power_distributing._component_managers._battery_manager",
      "succeed_batteries = set(battery_distribution.keys()) - failed_batteries",
      "succeed_batteries = set(battery_distribution.keys())", "C15.SETS"),
 ]
+
+
+def check_pv_pairing(run: Run, prog: Program, info: dict[str, dict[str, str]]) -> None:
+    """C15.ID, the PV side of `excess_power`: what `_set_api_power` reports as excess is the ledger
+    `request.power - Σ allocations` of the water-filling in `PVManager.distribute_power`.  Roles by
+    dataflow: the callee parameter reported as `excess_power=`, the callee parameter whose entries are
+    booked as failed power (the allocation map), the arguments bound to them at the one call site.
+    Rule (per statement suite, polynomial normal forms): Δ(values stored into the allocation map)
+    + Δ(ledger) == 0, the ledger starts as request.power, the map starts empty."""
+    from ..engine import normalize as nz
+
+    sa = _norm(prog, prog.func(f"{PV}._set_api_power"))
+    dp = _norm(prog, prog.func(f"{PV}.distribute_power"))
+    run.analysed(dp.qual)
+    sa_info = info.get(sa.qual)
+    if sa_info is None:
+        return  # the failed bookkeeping of _set_api_power was not identified: reported there
+    cfg_sa = CFG(sa.node, sa.file)
+    rem_params: set[str | None] = set()
+    for c in all_ctors(sa.node):
+        _k, f = ctor_fields(prog, sa, c)
+        rem_params.add(flow_eval(cfg_sa, _site(cfg_sa, sa, c), f["excess_power"]).as_atom())
+    params = method_params(sa)
+    if len(rem_params) != 1 or next(iter(rem_params)) not in params or sa_info["alloc"] not in params:
+        raise AnalysisError(f"{sa.qual}: the reported excess / the allocation map are not parameters")
+    rem_p, alloc_p = next(iter(rem_params)), sa_info["alloc"]
+    calls = find_calls(dp.node, lambda c: method_call(c, "self", "_set_api_power"))
+    if len(calls) != 1:
+        raise AnalysisError(f"{dp.qual}: expected one call of self._set_api_power, found {len(calls)}")
+    args = bound_args(calls[0], params, f"{dp.qual}: self._set_api_power(...)")
+    req = request_param(dp)
+    ledger, amap = args.get(rem_p), args.get(alloc_p)  # type: ignore[arg-type]
+    if not isinstance(ledger, ast.Name) or not isinstance(amap, ast.Name):
+        raise AnalysisError(f"{dp.qual}: excess ledger / allocation map are not passed as locals")
+    run.check(u(args.get(request_param(sa))) == req, "C15.ID", dp.qual, "self._set_api_power(request, ...)",
+              "the allocations are reported against a different request", node=calls[0], file=dp.file,
+              instance=f"{dp.qual}: _set_api_power reports against the processed request")
+    te = TermEval()
+    L, M = ledger.id, amap.id
+    inits_l: list[ast.AST] = []
+    inits_m: list[ast.AST] = []
+    n_pairs = 0
+    for suite in nz._suite_lists(dp.node):
+        d_cells, d_ledger = Poly(), Poly()
+        touched: list[ast.stmt] = []
+        for st in suite:
+            tgt = val = None
+            if isinstance(st, ast.Assign) and len(st.targets) == 1:
+                tgt, val = st.targets[0], st.value
+            elif isinstance(st, ast.AnnAssign) and st.value is not None:
+                tgt, val = st.target, st.value
+            nd = name_delta(st, te)
+            if nd is not None and nd[0] == L:
+                d_ledger = d_ledger + nd[1]
+                touched.append(st)
+            elif isinstance(tgt, ast.Name) and tgt.id == L:
+                inits_l.append(st)
+            elif isinstance(tgt, ast.Name) and tgt.id == M:
+                inits_m.append(st)
+            elif isinstance(tgt, ast.Subscript) and isinstance(tgt.value, ast.Name) and tgt.value.id == M and val is not None:
+                d_cells = d_cells + te.ev(val)
+                touched.append(st)
+            elif isinstance(st, (ast.AugAssign, ast.Delete, ast.Expr)) and any(
+                    isinstance(x, ast.Name) and x.id == M for x in ast.walk(st)) and not any(
+                    isinstance(x, ast.Call) and (u(x.func).startswith("_logger.") or method_call(x, "self", "_set_api_power"))
+                    for x in ast.walk(st)):
+                # the map is changed in a way the pairing cannot account for (update/pop/del/+=)
+                d_cells = d_cells + Poly.atom(f"<{u(st)[:40]}>")
+                touched.append(st)
+        if not touched:
+            continue
+        n_pairs += 1
+        run.check((d_cells + d_ledger).is_zero(), "C15.ID", dp.qual, touched[0],
+                  f"the allocations change by `{d_cells!r}` while the excess ledger `{L}` changes by `{d_ledger!r}` "
+                  "in the same suite: excess_power is no longer request.power minus the power that is commanded",
+                  node=touched[0], file=dp.file,
+                  instance=f"{dp.qual}: suite@{touched[0].lineno} Δallocations + Δ{L} == 0")
+    ok = len(inits_l) == 1 and te.ev(inits_l[0].value) == Poly.atom(f"{req}.power")  # type: ignore[attr-defined]
+    run.check(ok, "C15.ID", dp.qual, f"{L} = {req}.power", "the excess ledger does not start as the requested power",
+              node=dp.node, file=dp.file, instance=f"{dp.qual}: excess ledger starts as request.power")
+    v = inits_m[0].value if len(inits_m) == 1 else None  # type: ignore[attr-defined]
+    ok = (isinstance(v, ast.Dict) and not v.keys) or (isinstance(v, ast.Call) and u(v.func) == "dict" and not v.args
+                                                      and not v.keywords)
+    run.check(ok, "C15.ID", dp.qual, f"{M} = {{}}", "the allocation map does not start empty",
+              node=dp.node, file=dp.file, instance=f"{dp.qual}: allocation map starts empty")
+    if n_pairs == 0:
+        raise AnalysisError(f"{dp.qual}: no allocation / ledger update found")
 
 
 def run_rules(run: Run, prog: Program) -> None:
@@ -828,6 +921,7 @@ def run_rules(run: Run, prog: Program) -> None:
     for rule, node, msg in roles.issues:
         run.violation(rule, roles.dp.qual, node, msg, node=node, file=roles.dp.file)
     info = check_fail(run, prog, roles)
+    check_pv_pairing(run, prog, info)
     check_sets(run, prog, roles)
     check_all(run, prog, roles, info)
 
@@ -850,9 +944,8 @@ def check(run: Run, prog: Program, tier: str) -> str:
     run_controls(run, CONTROLS, run_rules, tier)
     run.assume("unit wrappers (Power.from_watts / as_watts) are value-preserving; a field whose "
                "only writers are zero constants is zero")
-    run.undecided("the numeric content of the allocations (C01); that the PV water-filling keeps "
-                  "remaining_power = request.power - Σ allocations is a paired-update fact checked "
-                  "under C15.ID only through the fields' normal forms")
+    run.undecided("the numeric content of the allocations (C01 for batteries; for PV which inverter gets how "
+                  "much); that a result is sent for every request (the PV manager has no-result exits)")
     return ("Term normal forms (polynomials over opaque atoms, single-definition locals inlined, "
             "constant-only fields folded) decide the accounting identity of every result "
             "constructor; exception-aware CFG path rules decide failure-handling totality, "
